@@ -387,11 +387,16 @@ REG['C10'] = {
 REG['C04'] = {
     'level': 'other',
     'design_ref': '5/C04',
-    'technique': 'the no-major-term rule written as an executable checker and run over the library\'s own new-moon and term days for every lunar year outside the reform periods',
+    'technique': 'the no-major-term rule as an executable checker, Verus-verified against its mathematical statement, run over the library\'s own new-moon and term days for every lunar year outside the reform periods',
     'level_text': 'Bounded only (exhaustive execution, not a proof about the code): for every lunar year 27..9998 except 237..240 the lunation containing the winter solstice is month 11, with 13 lunations between solstice months the first one without a major term is the leap month, and every month the rule demands exists in the library with exactly that first day (so the packed leap table and the month offsets agree with the astronomy).',
-    'level_note': 'both sides are f64 series evaluations (calc_shuo / calc_qi): no verifier here can evaluate them; the checker itself is plain Rust written from the rule',
+    'level_note': 'both sides are f64 series evaluations (calc_shuo / calc_qi): no verifier here can evaluate them; the checker is Verus-verified (spec/leaprule.rs); only the oracle is proved, the code under test is executed',
     'explanation': 'exhaustive execution of the rule over 9,968 lunar years',
-    'functions': ['LunarYear::get_leap_month (leaf)', 'LunarMonth::new (leaf)', 'ShouXingUtil::calc_shuo / calc_qi (leaf)'],
+    'functions': ['spec::leap_position / last_lunation / has_zq (verified oracle)', 'LunarYear::get_leap_month (leaf)', 'LunarMonth::new (leaf)', 'ShouXingUtil::calc_shuo / calc_qi (leaf)'],
+    'V': [
+        dict(id='c04_leap_rule', template='verus/c04_leap_rule.rs', twin_quick=True,
+             twin=[('ensures m_is_leap_pos(nm@, zq@, last as int, r as int),', 'ensures m_is_leap_pos(nm@, zq@, last as int, r as int + 1),')],
+             clause='the executable rule checker equals the mathematical no-major-term rule (oracle verified; the relation table <=> astronomy itself is executed, not proved)'),
+    ],
     'L': [
         dict(id='c04_leap_rule', check='c04_leap_rule', range=(27, 9998), chunks=64, exhaustive=True, domain='every lunar year 27..9998 except 237..240', clause='month numbering and leap month == no-major-term rule on the library\'s own days'),
         dict(id='L-NEW', check='l_new', range=(0, 9999), chunks=32, exhaustive=True, domain='every lunation', clause='months tile (so the rule\'s lunations are the library\'s months)'),
